@@ -9,8 +9,11 @@ PROP = "C09"
 ENGINE = "E3 history explorer (explicit-state BFS over replayed histories)"
 RULE = (
     "breadth-first search over all operation sequences up to the depth bound over {enter / leave overlay "
-    "(LIFO) for overlays on 'gen > g > w' and 'g > w', create generator k, next k, close k, drop k (k in "
-    "{0,1}), driver call of g}; every history is executed twice: at top level, where the handler "
+    "(LIFO) for overlays on 'gen > g > w' and 'g > w', create generator k, next k, close k, drop k, throw an "
+    "exception into suspended generator k (k in {0,1}), driver call of g}, for generator functions with plain "
+    "yields, a yield from, yields in chained / unpacking assignments, yields inside augmented assignments to "
+    "a captured variable with a `return` in a finally clause, and one that handles the thrown exception by "
+    "yielding again and swallows GeneratorExit; every history is executed twice: at top level, where the handler "
     "collection seen by the driver after every step must equal the model's (entered overlays, in order), "
     "and inside one activation of an instrumented driver function under an always-on probe "
     "'drv > g > w', which must fire exactly once per driver call. In both, 'gen > g > w' must never fire "
@@ -22,7 +25,7 @@ ASSUMPTIONS = [
     "calls made from generator bodies are ignored",
     "CPython reference counting finalises dropped generators immediately (a gc.collect() follows every drop)",
 ]
-BOUNDS = {"quick": {"depth": 5, "generators": 2}, "thorough": {"depth": 7, "generators": 2, "merge_audit_depth": 4}}
+BOUNDS = {"quick": {"depth": 5, "generators": "2 (1 for the two kinds that swallow exceptions)"}, "thorough": {"depth": 7, "generators": 2, "merge_audit_depth": 4}}
 
 SRC = '''
 def g(v):
@@ -56,13 +59,50 @@ def gen3(n):
     t, u = (yield 1), 0
     g(402)
 
+class Retry(Exception):
+    pass
+
+def gen4(n):
+    # handles what is thrown into it: Retry by yielding the same item again, GeneratorExit by
+    # finishing quietly (legal as long as it does not yield again)
+    i = 0
+    try:
+        while i < n:
+            try:
+                g(500 + i)
+                yield i
+            except Retry:
+                continue
+            i = i + 1
+    except GeneratorExit:
+        pass
+    g(599)
+
+def gen5(n):
+    # yields inside the right-hand side of augmented assignments to a captured variable;
+    # a `return` in the finally clause swallows whatever ends the generator
+    total = 0
+    try:
+        g(600)
+        total += (yield 0) or 1
+        g(601)
+        total += (yield 1) or 1
+        g(602)
+    finally:
+        return total
+
 def drv(steps):
     out = []
     for step in steps:
         out.append(step())
     return out
 '''
-OVERLAYS = {"OG": "gen > g > w", "OW": "g > w", "OG2": "gen2 > g > w", "OG3": "gen3 > g > w"}
+OVERLAYS = {"OG": "gen > g > w", "OW": "g > w", "OG2": "gen2 > g > w", "OG3": "gen3 > g > w",
+            "OG4": "gen4 > g > w", "OG5": "gen5(total) > g > w"}
+KIND_OVERLAY = {"gen2": "OG2", "gen3": "OG3", "gen4": "OG4", "gen5": "OG5"}
+FUNCS = ("g", "gen", "gen2", "gen3", "gen4", "gen5", "sub", "drv")
+# what a generator kind does with a Retry exception thrown into it while it is suspended
+HANDLES_THROW = {"gen4"}
 
 
 _NS = [None]
@@ -73,7 +113,7 @@ def shared_ns():
     is back on its original code after a run (checked in Run); otherwise it is rebuilt."""
     if _NS[0] is None:
         ns = world.make_module(SRC, pin=True)
-        ns["__orig__"] = {k: ns[k].__code__ for k in ("g", "gen", "gen2", "gen3", "sub", "drv")}
+        ns["__orig__"] = {k: ns[k].__code__ for k in FUNCS}
         _NS[0] = ns
     return _NS[0]
 
@@ -89,8 +129,8 @@ class Run:
         world.reset_context()
         self.ns = shared_ns()
         ns = self.ns
-        env = {k: ns[k] for k in ("g", "gen", "gen2", "gen3", "drv", "sub")}
-        self.events = {"OG": [], "OW": [], "OG2": [], "OG3": [], "PD": []}
+        env = {k: ns[k] for k in FUNCS}
+        self.events = {k: [] for k in list(OVERLAYS) + ["PD"]}
         self.obs = []
         self.gens = {}
         self.active = {}
@@ -98,7 +138,7 @@ class Run:
         handler_slot = {}
         probes = {}
         # the functions are instrumented for the whole run by non-delivering probes
-        base = [probing("gen > g > w", env=env), probing("gen2 > g > w", env=env), probing("gen3 > g > w", env=env), probing("g > w", env=env)]
+        base = [probing(OVERLAYS[o], env=env) for o in ("OG", "OG2", "OG3", "OG4", "OG5", "OW")]
         if inside_driver:
             pd = probing("drv > g > w", env=env)
             pd.subscribe(lambda ev: self.events["PD"].append(ev["w"]))
@@ -144,6 +184,15 @@ class Run:
                             out = ("yielded", next(self.gens[op[1]]))
                         except StopIteration:
                             out = "exhausted"
+                            self.gens[op[1]] = None
+                    elif op[0] == "throw":
+                        try:
+                            out = ("yielded", self.gens[op[1]].throw(ns["Retry"]()))
+                        except StopIteration:
+                            out = "exhausted"
+                            self.gens[op[1]] = None
+                        except ns["Retry"]:
+                            out = "propagated"
                             self.gens[op[1]] = None
                     elif op[0] == "close":
                         self.gens[op[1]].close()
@@ -210,7 +259,7 @@ class System:
     def enabled(self, m):
         entered, gens, ncalls = m
         ops = []
-        for o in ("OG", "OW") + (("OG2",) if "gen2" in self.kinds else ()) + (("OG3",) if "gen3" in self.kinds else ()):
+        for o in ("OG", "OW") + tuple(KIND_OVERLAY[k] for k in self.kinds if k in KIND_OVERLAY):
             if o not in entered:
                 ops.append(("enter", o))
         if entered:
@@ -220,6 +269,8 @@ class System:
                 ops.append(("create", k))
             else:
                 ops += [("next", k), ("close", k), ("drop", k)]
+                if st != 0:
+                    ops.append(("throw", k))  # only into a generator suspended at a yield
         ops.append(("call",))
         return ops
 
@@ -240,6 +291,10 @@ class System:
                 gens[op[1]] = "none"
             else:
                 gens[op[1]] = n + 1
+            return (entered, tuple(gens), ncalls), ("step", op[0])
+        if op[0] == "throw":
+            if self.kinds[op[1]] not in HANDLES_THROW:
+                gens[op[1]] = "none"  # the exception ends the generator and comes back to the driver
             return (entered, tuple(gens), ncalls), ("step", op[0])
         if op[0] in ("close", "drop"):
             gens[op[1]] = "none"
@@ -284,7 +339,7 @@ class System:
                 for o in OVERLAYS:
                     want = (value,) if (o == "OW" and "OW" in entered) else ()
                     if new[o] != want:
-                        tag = "leak" if o in ("OG", "OG2", "OG3") else "g>w"
+                        tag = "leak" if o != "OW" else "g>w"
                         probs.append(f"[{name}] driver call g({value}): overlay {o} ({OVERLAYS[o]}) received {new[o]!r}, expected {want!r} <{tag}>")
                 if name == "inside drv" and new["PD"] != (value,):
                     probs.append(f"[{name}] driver call g({value}): 'drv > g > w' received {new['PD']!r}, expected exactly one event")
@@ -299,7 +354,10 @@ class System:
 
 
 def kinds_for(tier):
-    return [("gen", "gen"), ("gen2", "gen"), ("gen3", "gen")]
+    if tier == "quick":
+        # the kinds that differ in how they end (swallowed exceptions, thrown exceptions) alone
+        return [("gen", "gen"), ("gen2", "gen"), ("gen3", "gen"), ("gen4",), ("gen5",)]
+    return [("gen", "gen"), ("gen2", "gen"), ("gen3", "gen"), ("gen4", "gen"), ("gen5", "gen"), ("gen4", "gen5")]
 
 
 def units(tier):
@@ -321,7 +379,7 @@ def classify(kinds, hist, detail):
             n[o[1]] = 0
         elif o[0] == "next" and o[1] in n:
             n[o[1]] += 1
-        elif o[0] in ("close", "drop"):
+        elif o[0] in ("close", "drop") or (o[0] == "throw" and kinds[o[1]] not in HANDLES_THROW):
             n.pop(o[1], None)
         # once a generator has been suspended inside `yield from`, the caller's collection is
         # corrupted for the rest of the history (normally the search stops at that very step)
